@@ -46,6 +46,22 @@ func (h *uSentPacketHandler) PeekPacketNumber(encLevel protocol.EncryptionLevel)
 	return pn, protocol.PacketNumberLengthForHeader(pn, pnSpace.largestAcked)
 }
 
+// PeekInitialPacketNumberAhead is PeekPacketNumber for the Initial packet that is sent n
+// packets after the next one (Initial packet numbers are not skipped). A flight that is laid
+// out before its first packet leaves needs the header size of each of its packets. [UQUIC]
+func (h *uSentPacketHandler) PeekInitialPacketNumberAhead(n int) (protocol.PacketNumber, protocol.PacketNumberLen) {
+	pnSpace := h.getPacketNumberSpace(protocol.EncryptionInitial)
+	pn := pnSpace.pns.Peek() + protocol.PacketNumber(n)
+	if len(h.initialPacketNumberLengths) > 0 {
+		idx := min(max(int(pn-h.initialPacketNumberBase), 0), len(h.initialPacketNumberLengths)-1)
+		return pn, decodablePacketNumberLen(pn, pnSpace.largestAcked, h.initialPacketNumberLengths[idx])
+	}
+	if h.initialPacketNumberLength != 0 {
+		return pn, decodablePacketNumberLen(pn, pnSpace.largestAcked, h.initialPacketNumberLength)
+	}
+	return pn, protocol.PacketNumberLengthForHeader(pn, pnSpace.largestAcked)
+}
+
 // decodablePacketNumberLen returns pnLen, unless a peer that has processed nothing beyond
 // what it acknowledged could not recover pn from a pnLen-byte encoding (RFC 9000, Appendix
 // A.3): then it returns the shortest longer encoding that it can recover. A spec'd length is
